@@ -188,6 +188,56 @@ pub fn dispatch(f: &[&str]) -> Result<String, String> {
                 o => Err(format!("fmt {o}")),
             }
         }
+        // VER <mode> <stdin: ~ | Z...> A <n> <hexarg>...   mode = text | zerv
+        //   runs run_version_pipeline on the parsed argv; `zerv` re-parses the RON output and returns the object
+        "VER" | "FLW" => {
+            let mode = f[1];
+            let mut c = crate::zenc::Cur { f, i: 2 };
+            let stdin: Option<String> = if f[2] == "~" {
+                c.i = 3;
+                None
+            } else {
+                if c.next()? != "Z" {
+                    return Err("expected Z".into());
+                }
+                let rs = crate::zenc::raw_schema(&mut c)?;
+                let vs = crate::zenc::vars(&mut c)?;
+                Some(crate::zenc::raw_ron(&rs, &vs))
+            };
+            if c.next()? != "A" {
+                return Err("expected A".into());
+            }
+            let n = c.usize()?;
+            let mut argv: Vec<String> = vec![if f[0] == "VER" { "version".into() } else { "flow".into() }];
+            for _ in 0..n {
+                argv.push(unhex(c.next()?)?);
+            }
+            use clap::Parser as _;
+            let out = if f[0] == "VER" {
+                match zerv::cli::VersionArgs::try_parse_from(&argv) {
+                    Ok(a) => zerv::cli::run_version_pipeline(a, stdin.as_deref()),
+                    Err(_) => return Ok("ARGERR".into()),
+                }
+            } else {
+                match zerv::cli::FlowArgs::try_parse_from(&argv) {
+                    Ok(a) => zerv::cli::run_flow_pipeline(a, stdin.as_deref()),
+                    Err(_) => return Ok("ARGERR".into()),
+                }
+            };
+            match out {
+                Err(_) => Ok("ERR".into()),
+                Ok(t) => {
+                    if mode == "zerv" {
+                        match zerv::version::Zerv::from_str(&t) {
+                            Ok(z) => Ok(format!("OK {}", crate::zenc::enc_zerv(&z))),
+                            Err(e) => Ok(format!("REPARSE-FAILED {}", hex(&e.to_string()))),
+                        }
+                    } else {
+                        Ok(format!("OK {}", hex(&t)))
+                    }
+                }
+            }
+        }
         // CNV <in-fmt> <out-fmt> <prefix?> <s> : zerv render
         "CNV" => {
             let prefix = opt_str(f[3])?;
